@@ -15,13 +15,17 @@ use serde::{Deserialize, Serialize};
 use std::collections::BTreeSet;
 
 const CORPUS_X86: &str = include_str!("../corpus/x86.txt");
+// hand-written additions: string instructions with rep/size prefixes, far/indirect
+// control transfers, legacy one-byte opcodes
+const CORPUS_X86_EXTRA: &str = include_str!("../corpus/x86_extra.txt");
 const CORPUS_MIPS: &str = include_str!("../corpus/mips.txt");
 const CORPUS_PPC: &str = include_str!("../corpus/ppc.txt");
 const CORPUS_A64: &str = include_str!("../corpus/aarch64.txt");
 
 pub fn corpus(arch: Arch) -> Vec<Vec<u8>> {
+    let x86_all = format!("{}\n{}", CORPUS_X86, CORPUS_X86_EXTRA);
     let text = match arch.family() {
-        "x86" => CORPUS_X86,
+        "x86" => x86_all.as_str(),
         "mips" => CORPUS_MIPS,
         "ppc" => CORPUS_PPC,
         _ => CORPUS_A64,
@@ -329,6 +333,27 @@ fn unit_from_forms(rng: &mut Rng, arch: Arch, at: u64) -> Vec<u8> {
     b
 }
 
+const X86_PREFIXES: [u8; 18] = [0x66, 0x67, 0xf2, 0xf3, 0x2e, 0x36, 0x3e, 0x26, 0x64, 0x65, 0xf0, 0x40, 0x41, 0x44, 0x48, 0x49, 0x4c, 0x4f];
+
+/// [0-3 prefixes] opcode (one byte, 0f xx, or a string/control opcode) [random tail]
+fn x86_structured(rng: &mut Rng) -> Vec<u8> {
+    let mut b = Vec::new();
+    for _ in 0..rng.range(0, 3) {
+        b.push(*rng.pick(&X86_PREFIXES));
+    }
+    match rng.below(4) {
+        0 => b.push(*rng.pick(&[0xa4u8, 0xa5, 0xa6, 0xa7, 0xaa, 0xab, 0xac, 0xad, 0xae, 0xaf, 0x6c, 0x6d, 0x6e, 0x6f, 0xc3, 0xe2, 0xe3, 0xff, 0x8e, 0x8c, 0xf6, 0xf7, 0xc6, 0xc7])),
+        1 => {
+            b.push(0x0f);
+            b.push(rng.next() as u8);
+        }
+        _ => b.push(rng.next() as u8),
+    }
+    let tail = rng.usize_below(9);
+    b.extend(rng.bytes(tail));
+    b
+}
+
 fn mutate(rng: &mut Rng, arch: Arch, b: &mut Vec<u8>) -> &'static str {
     if b.is_empty() {
         return "empty";
@@ -347,8 +372,10 @@ fn mutate(rng: &mut Rng, arch: Arch, b: &mut Vec<u8>) -> &'static str {
             "byte-substitution"
         }
         2 if arch.is_x86() => {
-            let p = *rng.pick(&[0x66u8, 0x67, 0xf2, 0xf3, 0x2e, 0x36, 0x3e, 0x26, 0x64, 0x65, 0xf0, 0x40, 0x41, 0x44, 0x48, 0x49, 0x4c, 0x4f]);
-            b.insert(0, p);
+            for _ in 0..rng.range(1, 3) {
+                let p = *rng.pick(&X86_PREFIXES);
+                b.insert(0, p);
+            }
             "x86-prefix"
         }
         3 if arch.is_x86() => {
@@ -416,6 +443,12 @@ pub fn generate(run_seed: u64, _index: u64) -> Case {
     let mut kind;
     let mut bytes: Vec<u8> = Vec::new();
     match rng.below(10) {
+        0 if arch.is_x86() => {
+            kind = "x86-structured".to_string();
+            for _ in 0..rng.range(1, 4) {
+                bytes.extend(x86_structured(&mut rng));
+            }
+        }
         0 | 1 => {
             kind = "random".to_string();
             let n = rng.range(0, 80) as usize;
